@@ -24,7 +24,8 @@ EXPLANATION = ("Vertices, triangle indices and every byte offered to the reader 
                "consistent and every index is < N, otherwise raise InvalidMeshDataError; the affine transform is proved "
                "equal to R v + t with the winding reversed iff det R < 0, and the signed volume of an arbitrary triangle "
                "w.r.t. an arbitrary point keeps its sign (polynomial identity over the reals).")
-BOUNDS = {"quick": "N in 0..3 vertices, M in 0..2 triangles (all values); reader: every byte string of every length 0..44; "
+BOUNDS = {"quick": "mesh-to-precomputed also through main(argv) with --coord-transform (12- and 16-element, mirroring and not); "
+                   "N in 0..3 vertices, M in 0..2 triangles (all values); reader: every byte string of every length 0..44; "
                    "affine: all real 3x4 / 4x4 matrices, one arbitrary triangle and reference point",
           "thorough": "reader lengths up to 64; N<=4, M<=3"}
 OUTSIDE = ["VTK export: the digits np.savetxt's '%.9g' produces for a float (each finite value is one number token), non-finite values, "
@@ -46,6 +47,9 @@ def configs(tier, seed):
         out.append(dict(harness="affine", rows=rows, cost=3, timeout_ms=120000))
     for N, e in ((1, 0), (2, -2), (3, 3)):
         out.append(dict(harness="mm_to_nm", N=N, e=e, cost=1))
+    # through the command line with --coord-transform (mirroring and non-mirroring, 12 and 16 elements)
+    out.append(dict(harness="mm_to_nm", N=3, e=0, transform="2,0,0,1,0,-1,0,0,0,0,0.5,3", cost=2))
+    out.append(dict(harness="mm_to_nm", N=2, e=-1, transform="0,1,0,-2,1,0,0,0.5,0,0,-1,4,0,0,0,1", cost=2))
     out.append(dict(harness="fragments", cost=1))
     for N, M, A in ((0, 0, 1), (1, 1, 2), (2, 1, 3), (3, 2, 3)) + (((4, 3, 4),) if tier == "thorough" else ()):
         out.append(dict(harness="vtk", N=N, M=M, A=A, cost=2 + A, none_attrs=(N == 1)))
@@ -241,8 +245,20 @@ def H_mm_to_nm(ctx, cfg):
     info = V.make_info("uint32", 1, (2, 2, 2), (2, 2, 2))
     info["type"] = "segmentation"
     W.put_info("/mfs/m", info)
-    rc = mod.mesh_file_to_precomputed("/in/surf.gii", "/mfs/m", options={"gzip": False})
-    ctx.prove(rc is None, "conversion-succeeds", detail=str(rc))
+    tr = cfg.get("transform")
+    if tr:
+        # through main(argv) with --coord-transform (12 or 16 comma-separated numbers)
+        load.patch("utils", init_logging_for_cmdline=lambda: None)
+        try:
+            rc = mod.main(["mesh-to-precomputed", "/in/surf.gii", "/mfs/m", "--no-gzip", "--coord-transform=" + tr])
+        except SystemExit as exc:
+            rc = exc.code
+        ctx.prove(rc in (None, 0), "conversion-succeeds", detail=str(rc))
+        if rc not in (None, 0):
+            return
+    else:
+        rc = mod.mesh_file_to_precomputed("/in/surf.gii", "/mfs/m", options={"gzip": False})
+        ctx.prove(rc is None, "conversion-succeeds", detail=str(rc))
     stored = W.env.fs.files.get("/mfs/m/mesh/surf")
     if stored is None:
         ctx.fail("mesh-file-stored-under-mesh-dir", detail=str(sorted(W.env.fs.files)))
@@ -252,6 +268,33 @@ def H_mm_to_nm(ctx, cfg):
     v, t = mesh.read_precomputed_mesh(ByteStream(stored))
     ctx.sample(dict(N=N, exponent=e, file_len=len(stored)))
     conds = []
+    if tr:
+        from fractions import Fraction
+        M = [Fraction(x) for x in tr.split(",")]
+        R = [M[4 * r:4 * r + 3] for r in range(3)]
+        T = [M[4 * r + 3] for r in range(3)]
+        det = (R[0][0] * (R[1][1] * R[2][2] - R[1][2] * R[2][1]) - R[0][1] * (R[1][0] * R[2][2] - R[1][2] * R[2][0])
+               + R[0][2] * (R[1][0] * R[2][1] - R[1][1] * R[2][0]))
+        for i in range(N):
+            ins = [a[i, c].value_num_den() for c in range(3)]
+            for r in range(3):
+                n, d = v.a[i, r].value_num_den()
+                # stored = 10^6 * (sum_c R[r][c] * in_c + T[r]); everything scaled to integers
+                den = 1
+                for (_, od) in ins:
+                    den *= od
+                lcm = 1
+                for q in R[r] + [T[r]]:
+                    lcm = lcm * q.denominator
+                rhs = sum(int(R[r][c] * lcm) * ins[c][0] * (den // ins[c][1]) for c in range(3)) + int(T[r] * lcm) * den
+                conds.append(n * den * lcm == 1000000 * rhs * d)
+        ctx.prove(z3.And(conds), "stored-vertex-is-10^6-times-the-transformed-vertex")
+        want_order = [2, 1, 0] if det < 0 else [0, 1, 2]
+        tri_in = [i % N for i in range(3)]
+        got_tri = [t.a[0, k] for k in range(3)]
+        ctx.prove(z3.And([g.e == tri_in[want_order[k]] for k, g in enumerate(got_tri)]),
+                  "winding-reversed-exactly-when-the-transform-mirrors", detail=f"det {det}")
+        return
     for idx in real_np.ndindex(N, 3):
         n, d = v.a[idx].value_num_den()
         on, od = a[idx].value_num_den()
@@ -428,12 +471,28 @@ def replay(cfg, cex):
             info = V.make_info("uint32", 1, (2, 2, 2), (2, 2, 2))
             info["type"] = "segmentation"
             pio.get_IO_for_new_dataset(info, acc_mod.get_accessor_for_url(ds, {}))
+            tr = cfg.get("transform")
             try:
-                mod.mesh_file_to_precomputed(fn, ds, options={"gzip": False})
+                if tr:
+                    try:
+                        rc = mod.main(["mesh-to-precomputed", fn, ds, "--no-gzip", "--coord-transform=" + tr])
+                    except SystemExit as exc:
+                        rc = exc.code
+                    if rc not in (None, 0):
+                        return True, f"mesh-to-precomputed --coord-transform={tr} exited with {rc}"
+                else:
+                    mod.mesh_file_to_precomputed(fn, ds, options={"gzip": False})
                 with open(os.path.join(ds, "mesh", "surf"), "rb") as f:
                     v, t = mesh.read_precomputed_mesh(f)
             except Exception as exc:
                 return True, f"mesh conversion failed: {type(exc).__name__}: {exc}"
+            if tr:
+                M = real_np.array([float(x) for x in tr.split(",")])[:12].reshape(3, 4)
+                want = ((pts.astype(real_np.float64) @ M[:, :3].T + M[:, 3]) * 1e6).astype(real_np.float32)
+                wt = tris[:, ::-1] if real_np.linalg.det(M[:, :3]) < 0 else tris
+                if not real_np.array_equal(v, want):
+                    return True, f"--coord-transform={tr}: stored vertices {v.ravel().tolist()}, expected 10^6 x (R v + t) = {want.ravel().tolist()}"
+                return (not real_np.array_equal(t, wt)), f"--coord-transform={tr}: stored triangles {t.tolist()}, expected {wt.tolist()}"
             want = (pts.astype(real_np.float64) * 1e6).astype(real_np.float32)
             return (not real_np.array_equal(v, want)), f"stored vertices {v.ravel().tolist()} for input {pts.ravel().tolist()} mm (expected x 10^6)"
     if h == "vtk":
